@@ -180,7 +180,7 @@ def ops_correspondence(ctx, props_ok):
     if not props_ok:
         return
     with ctx.timed("coq_cases"):
-        bad, err = coq_eval_mismatches(ctx, "C03ops", "Base.Record C06.Model C03.Model C03.Harness", "ops_case", "chk", terms, shard=700)
+        bad, err = coq_eval_mismatches(ctx, "C03ops", "Base.Record C06.Model C03.Model C03.Harness", "ops_case", "chk", terms, shard=len(terms) // 2 + 1)
     ctx.cov["correspondence"]["mlrval_ops"] = {"cases": len(terms), "mismatches": len(bad)}
     if err:
         ctx.violation({"broken": "correspondence-evaluation C03ops", "detail": err[-2000:]}, found_input=False)
@@ -335,9 +335,11 @@ def parse_dkvp(out):
     return recs
 
 
-def pmap_mlr(ctx, jobs, workers=10):
+def pmap_mlr(ctx, jobs, workers=None):
     """run [(args, stdin)] through mlr_run concurrently (mlr start-up costs ~1 s of CPU in this tree); results in order"""
     from concurrent.futures import ThreadPoolExecutor
+    import os
+    workers = workers or int(os.environ.get("VERIF_PAR", "2"))    # raise on an idle machine (mlr start-up costs ~1 s CPU)
     with ctx.timed("impl"):
         with ThreadPoolExecutor(max_workers=workers) as ex:
             res = list(ex.map(lambda j: mlr_run(ctx, j[0], j[1], timeout=90), jobs))
@@ -386,7 +388,7 @@ def program_correspondence(ctx, props_ok):
     if not props_ok:
         return
     with ctx.timed("coq_cases"):
-        bad, err = coq_eval_mismatches(ctx, "C03prog", "Base.Record C06.Model C03.Model C03.Harness", "prog_case", "chk_prog", terms, shard=150)
+        bad, err = coq_eval_mismatches(ctx, "C03prog", "Base.Record C06.Model C03.Model C03.Harness", "prog_case", "chk_prog", terms, shard=len(terms) // 2 + 1)
     ctx.cov["correspondence"]["record_programs"] = {"cases": len(terms), "mismatches": len(bad)}
     if err:
         ctx.violation({"broken": "correspondence-evaluation C03prog", "detail": err[-2000:]}, found_input=False)
